@@ -287,14 +287,11 @@ func (p *TracerProvider) Shutdown(ctx context.Context) error {
 		return nil
 	}
 
+	// Every processor is shut down even if ctx is already done: processors
+	// honor ctx themselves, and returning early would leave them registered
+	// and running with no way to shut them down later.
 	var retErr error
 	for _, sps := range p.getSpanProcessors() {
-		select {
-		case <-ctx.Done():
-			return ctx.Err()
-		default:
-		}
-
 		var err error
 		sps.state.Do(func() {
 			err = sps.sp.Shutdown(ctx)
